@@ -37,13 +37,17 @@ Dyn(t, u) == DynConflict(Tasks[t], Tasks[u], Archs)
 OnSched ==
   /\ cur' = l /\ open' = {} /\ started' = {} /\ done' = {} /\ coopen' = {} /\ early' = {}
 
-OnFork ==
-  LET t == E.t IN
+(* a task that is executed without a fork of its own (node 0: run inline by the scheduler) is a
+   fork immediately followed by the task and its join *)
+ForkChecks(t) ==
   /\ Chk("C08", "conflicting-tasks-may-overlap", \A u \in open : ~Dyn(t, u))
   /\ Chk("C07", "started-before-conflicting-predecessor-finished",
          \A u \in 1..(t - 1) : Dyn(u, t) => u \in done)
   /\ Chk("C07", "started-after-conflicting-successor",
          \A u \in (t + 1)..NT : Dyn(u, t) => u \notin (started \cup open))
+OnFork ==
+  LET t == E.t IN
+  /\ ForkChecks(t)
   /\ open' = open \cup {t}
   /\ coopen' = coopen \cup {{t, u} : u \in open}
   /\ early' = IF \E u \in open : StageOf(Tasks, u) < StageOf(Tasks, t) THEN early \cup {t} ELSE early
@@ -51,9 +55,15 @@ OnFork ==
 
 OnBegin ==
   /\ Chk("C07", "task-ran-twice", E.t \notin started)
-  /\ Chk("HARNESS", "task-began-outside-its-fork", E.t \in open)
   /\ started' = started \cup {E.t}
-  /\ UNCHANGED <<cur, open, done, coopen, early>>
+  /\ IF E.n = 0
+     THEN /\ Chk("HARNESS", "inline-task-also-forked", E.t \notin open)
+          /\ ForkChecks(E.t)
+          /\ coopen' = coopen \cup {{E.t, u} : u \in open}
+          /\ early' = IF \E u \in open : StageOf(Tasks, u) < StageOf(Tasks, E.t) THEN early \cup {E.t} ELSE early
+     ELSE /\ Chk("HARNESS", "task-began-outside-its-fork", E.t \in open)
+          /\ UNCHANGED <<coopen, early>>
+  /\ UNCHANGED <<cur, open, done>>
 
 OnEnd ==
   /\ done' = done \cup {E.t}
